@@ -165,14 +165,19 @@ def ground_operator_pairs(tier, seed):
                 text = ' '.join(toks)
                 try:
                     want = ref_tree(toks, version)
-                except RefError:
-                    # not an expression of the language: the property says nothing about it
-                    # (what the parser may raise is C03)
+                except RefError as why:
+                    # not an expression of the language; the associativity rules are part of the property: a chain of
+                    # non-associative operators has to be rejected, other ill-formed inputs are C03's business
                     try:
-                        real_tree(version, text)
+                        got = real_tree(version, text)
                         accepted_invalid += 1
+                        if 'non-associative' in str(why) and version != '1.0':
+                            n += 1
+                            fails.append({'key': f'a chain of non-associative operators is accepted ({o1} then {o2})', 'version': version, 'text': text,
+                                          'want': 'REJECT', 'what': f'XPath {version}: `{text}` is parsed as {got!r}; the EBNF makes these operators non-associative'})
                     except Exception:
-                        pass
+                        if 'non-associative' in str(why) and version != '1.0':
+                            n += 1
                     continue
                 n += 1
                 try:
@@ -206,6 +211,8 @@ def replay_pair(f):
         got = real_tree(f['version'], f['text'])
     except Exception as e:
         got = ('ERROR', str(e)[:60])
+    if f['want'] == 'REJECT':
+        return isinstance(got, tuple) and got[:1] == ('ERROR',)
     return repr(got) == f['want']
 
 
@@ -387,6 +394,123 @@ def bounded_roundtrip(tier, seed):
                      'parse(parse(s).source) == parse(s); doubled blanks / newlines / nested (: :) comments between tokens',
             'rule': 'distinct = (version, number of parentheses); every chain counted in evaluations'}
 
+
+# ---- finite list: grouping probes decided by value (unary vs arrow/cast/union/path; keyword-like names; deep comments; sequence types) -----
+PROBES = [
+    # (versions, expression, expected value as Python repr or 'ERROR') - expected values follow from the EBNF grouping
+    (('3.1',), '-5 => abs()', '5'), (('3.1',), '- 2 => abs() => string()', "'2'"), (('3.1',), '-1 => string() => string-length()', '2'),
+    (('3.1',), '2 + -3 => abs()', '5'), (('3.1',), "-1 cast as xs:string => string-length()", '2'),
+    (('2.0', '3.0', '3.1'), '-1 cast as xs:string', "'-1'"), (('2.0', '3.0', '3.1'), '- 1 instance of xs:integer', 'True'),
+    (('2.0', '3.0', '3.1'), '2 * -3', '-6'), (('1.0', '2.0', '3.0', '3.1'), '- - 2', '2'), (('1.0', '2.0', '3.0', '3.1'), '1 - - 2', '3'),
+    (('2.0', '3.0', '3.1'), '-(1, 2)[2]', '-2'), (('3.0', '3.1'), "-2 ! (. + 1)", '-3'), (('2.0', '3.0', '3.1'), '1 to 2 + 1', '[1, 2, 3]'),
+    (('2.0', '3.0', '3.1'), '2 idiv 2 * 3', '3'), (('3.0', '3.1'), "'a' || 'b' = 'ab'", 'True'), (('3.0', '3.1'), "1 + 1 || 2", "'22'"),
+    (('2.0', '3.0', '3.1'), '1 (: a (: b (: c (: d :) c :) b :) a :) + 2', '3'), (('2.0', '3.0', '3.1'), '(: x :) 1 (: (: :) (: (: :) :) :)', '1'),
+    (('2.0', '3.0', '3.1'), "'(: not a comment :)'", "'(: not a comment :)'"), (('2.0', '3.0', '3.1'), '1 (: unterminated', 'ERROR'),
+    (('2.0', '3.0', '3.1'), '(1, 2) instance of item()+', 'True'), (('2.0', '3.0', '3.1'), '() instance of item()+', 'False'),
+    (('2.0', '3.0', '3.1'), '() instance of node()?', 'True'), (('2.0', '3.0', '3.1'), '(1, 2) instance of xs:integer*', 'True'),
+    (('3.0', '3.1'), '(abs#1) instance of function(*)+', 'True'), (('3.1',), '[1] instance of array(*)?', 'True'),
+]
+NAME_PROBES = ['div.b', 'mod.c', 'to.y', 'for.v', 'and.x', 'or.y', 'if.then', 'union.a', 'eq.b', 'is.c', 'div-b', 'mod_c', 'then', 'else.x', 'return.x', 'instance.of',
+               'cast.as', 'idiv.z', 'except.w', 'text.node', 'node.x', 'comment.y', 'element.z', 'item.q']
+
+
+def ground_probes(tier, seed):
+    import xml.etree.ElementTree as ET
+    from elementpath import XPathContext
+    fails, n = [], 0
+    for versions, expr, want in PROBES:
+        for v in versions:
+            n += 1
+            try:
+                tok = PARSERS[v]().parse(expr)
+                got = repr(tok.evaluate(XPathContext(root=ET.XML('<r/>'))))
+                src = tok.source
+                try:
+                    again = repr(PARSERS[v]().parse(src).evaluate(XPathContext(root=ET.XML('<r/>'))))
+                except ElementPathError as e:
+                    again = f'ERROR {e.code}'
+            except ElementPathError:
+                got, again, src = 'ERROR', 'ERROR', None
+            if got != want:
+                fails.append({'key': f'grouping probe: {expr}', 'version': v, 'expr': expr, 'want': want,
+                              'what': f'XPath {v}: `{expr}` evaluates to {got}; the EBNF grouping gives {want}'})
+            elif again != got:
+                fails.append({'key': f'source round trip: {expr}', 'version': v, 'expr': expr, 'want': want,
+                              'what': f'XPath {v}: source of `{expr}` is `{src}`, which evaluates to {again} instead of {got}'})
+    for name in NAME_PROBES:
+        doc = ET.XML(f'<r><{name} {name}="1">t</{name}></r>')
+        for v in ('1.0', '2.0', '3.0', '3.1'):
+            for expr, want in ((f'count(/r/{name})', 1), (f'count(//{name})', 1), (f'count(/r/{name}/@{name})', 1), (f'count(/r/*[self::{name}])', 1),
+                               (f'count(/r/child::{name})', 1)):
+                n += 1
+                try:
+                    got = PARSERS[v]().parse(expr).evaluate(XPathContext(root=doc))
+                except ElementPathError as e:
+                    got = f'ERROR {e.code}'
+                if got != want:
+                    fails.append({'key': f'a name starting with a keyword is not read as a name ({name.split(".")[0]}.)', 'version': v, 'expr': expr, 'want': repr(want),
+                                  'what': f'XPath {v}: `{expr}` gives {got!r}; `{name}` is an NCName and selects the element'})
+    uniq = {}
+    for f in fails:
+        uniq.setdefault(f['key'], f)
+    return {'obligations': n, 'discharged': n - len(fails), 'evaluations': n, 'distinct': n, 'exhaustive': True, 'count_each': True,
+            'scope': f'{len(PROBES)} grouping probes whose value is fixed by the EBNF (unary against arrow / cast / union / path / simple map, range and concat levels, '
+            f'comments nested up to four levels, sequence types with occurrence indicators; each also through its `source`) and {len(NAME_PROBES)} names that start '
+            'with a keyword, as element and attribute name tests, in every version', 'failures': list(uniq.values())}
+
+
+def replay_probe(f):
+    import xml.etree.ElementTree as ET
+    from elementpath import XPathContext
+    r = ground_probes('quick', 0)
+    return all(x['key'] != f['key'] for x in r['failures'])
+
+
+GROUND.append(Bounded('grouping_probes_keyword_names_comments', ground_probes, replay_probe))
+
+
+def ground_hash_seed(tier, seed):
+    """Tokenisation and parse results do not depend on the interpreter's hash seed: the same expressions in fresh interpreters with different seeds."""
+    import subprocess
+    import sys
+    exprs = ["1 + 2 * 3", "a/b[1] | c", "for $x in (1, 2) return $x", "1 eq 2 or 3 lt 4", "map{'a': 1}?a", "abs#1(-1)", "'a' || 'b'", "xs:integer('1') instance of xs:int",
+             "Q{u}a:b", "fn:string-length('x')", "math:pi()", "array:size([1])", "$v => string()", "child::div/div", "-1 div 2 mod 3", "//*[@a and @b]", "a idiv b union c", "a<=b", "a<<b", "a!=b", "a!b", "a||b", "a|b", "a::b", "$a:=1", "a/..//.", "1=>f()", "a>=b>>c",
+             "x:*", "*:x", "Q{u}*", "1e3", "1.5", ".5", "a--1", "a - -1", "div div div", "map{1:2}", "a?1", "a ? *", "(:c:)1", "fn:abs#1", "xs:int?", "item()*"]
+    code = ("import sys, json; sys.path.insert(0, '/repo'); from elementpath import XPath2Parser; from elementpath.xpath30 import XPath30Parser; "
+            "from elementpath.xpath31 import XPath31Parser; from elementpath import XPath1Parser; out = {}\n"
+            "for P in (XPath1Parser, XPath2Parser, XPath30Parser, XPath31Parser):\n"
+            "    p = P(namespaces={'a': 'urn:a'})\n"
+            "    for e in json.loads(sys.argv[1]):\n"
+            "        try: out[P.__name__ + ' ' + e] = p.parse(e).tree\n"
+            "        except Exception as x: out[P.__name__ + ' ' + e] = 'ERR ' + type(x).__name__\n"
+            "    for e in json.loads(sys.argv[1]): out[P.__name__ + ' tokens ' + e] = [''.join(m) for m in p.tokenizer.findall(e)]\n"
+            "print(json.dumps(out, sort_keys=True))")
+    import json as _json
+    import os
+    results = []
+    for hs in ('0', '1', '7', '12345', '4242'):
+        env = dict(os.environ, PYTHONHASHSEED=hs)
+        r = subprocess.run([sys.executable, '-c', code, _json.dumps(exprs)], capture_output=True, text=True, env=env, timeout=120)
+        results.append((hs, r.stdout.strip() or r.stderr[-300:]))
+    fails, n = [], 0
+    base = _json.loads(results[0][1]) if results[0][1].startswith('{') else {}
+    for hs, out in results[1:]:
+        cur = _json.loads(out) if out.startswith('{') else {'crash': out}
+        for k in sorted(set(base) | set(cur)):
+            n += 1
+            if base.get(k) != cur.get(k):
+                what = 'token sequence' if ' tokens ' in k else 'parse tree'
+                fails.append({'key': f'the {what} depends on the hash seed', 'case': k, 'seed': hs,
+                              'what': f'{k}: PYTHONHASHSEED=0 gives {str(base.get(k))[:80]!r}, PYTHONHASHSEED={hs} gives {str(cur.get(k))[:80]!r}'})
+    uniq = {}
+    for f in fails:
+        uniq.setdefault(f['key'], f)
+    return {'obligations': max(n, 1), 'discharged': max(n, 1) - len(fails), 'evaluations': n, 'distinct': n, 'exhaustive': True, 'count_each': True,
+            'scope': f'{len(exprs)} expressions x 4 parsers in 5 fresh interpreters with PYTHONHASHSEED in (0, 1, 7, 12345, 4242): identical parse trees and token sequences (the text of the tokenizer pattern may differ in the order of its alternatives)',
+            'failures': list(uniq.values())}
+
+
+GROUND.append(Bounded('hash_seed_independence', ground_hash_seed, lambda f: all(x['key'] != f['key'] for x in ground_hash_seed('quick', 0)['failures'])))
 
 BOUNDED = [Bounded('source_roundtrip_and_whitespace', bounded_roundtrip)]
 NOT_DECIDED = [
